@@ -24,7 +24,7 @@ def showErr : Err → String
   | .eof => "eof" | .violation => "violation"
 
 def showOutcome : Outcome → String
-  | .app k pre v => s!"app kind={showKind k} pre={boolStr pre} env={showPairs v.env} get={showPairs v.get} post={showPairs v.post} cookies={showCookies v.cookies} body={hx v.body}"
+  | .app k pre v => s!"app kind={showKind k} pre={boolStr pre} env={showPairs v.env} names={showPairs v.names} get={showPairs v.get} post={showPairs v.post} cookies={showCookies v.cookies} body={hx v.body}"
   | .status c pre oe => s!"status {c} pre={boolStr pre} onerr={boolStr oe}"
   | .raw400 => "raw400"
   | .aborted e pre oe => s!"aborted {showErr e} pre={boolStr pre} onerr={boolStr oe}"
@@ -82,15 +82,15 @@ def preOf : Outcome → Nat
 def b01 (s : String) : Bool := s == "1"
 
 def judge : List String → String
-  | ["view", m, sc, pa, q, hd, g, po, ck, bo, rf, env, og, op, oc, ob] =>
+  | ["view", m, sc, pa, q, hd, g, po, ck, bo, rf, env, nm, og, op, oc, ob] =>
     match unhx m, unhx sc, unhx pa, unhx q, parsePairs hd, parsePairs g, parsePairs po, parsePairs ck, unhx bo,
-          parsePairs env, parsePairs og, parsePairs op, parseCookies4 oc, unhx ob with
+          parsePairs env, parsePairs nm, parsePairs og, parsePairs op, parseCookies4 oc, unhx ob with
     | some m, some sc, some pa, some q, some hd, some g, some po, some ck, some bo,
-      some env, some og, some op, some oc, some ob =>
+      some env, some nm, some og, some op, some oc, some ob =>
       boolStr (Spec.viewOk { method := m, script := sc, path := pa, query := q, hdrs := hd, get := g, post := po,
                              cookies := ck, body := bo, rawFilter := b01 rf }
-                           { env := env, get := og, post := op, cookies := oc, body := ob })
-    | _, _, _, _, _, _, _, _, _, _, _, _, _, _ => "bad-op"
+                           { env := env, names := nm, get := og, post := op, cookies := oc, body := ob })
+    | _, _, _, _, _, _, _, _, _, _, _, _, _, _, _ => "bad-op"
   | "c02" :: exc :: probeOk :: closed :: reset :: pre :: ready :: onerr :: n200 :: nErr :: framed :: cmd =>
     match runModel cmd, pre.toNat?, ready.toNat?, onerr.toNat?, n200.toNat?, nErr.toNat? with
     | some outs, some pre, some ready, some onerr, some n200, some nErr =>
